@@ -26,6 +26,10 @@ fn invalid_calls(c: &Compiled, can_continue: bool, nchoices: usize, rng: &mut Rn
     v.push(("jump-unknown-path-reset", Op::ChoosePath("no_such_knot".into(), true), true));
     v.push(("jump-unknown-path-keep", Op::ChoosePath("no_such_knot.nor_stitch".into(), false), true));
     v.push(("bind-twice", Op::Bind("hostfn".into(), true), true));
+    // a second handler (distinguishable in the callback log) for a name the story really calls
+    if let Some(x) = c.info.externals.keys().next() {
+        v.push(("bind-twice-story-external", Op::Bind(x.clone(), false), true));
+    }
     v.push(("unbind-unbound", Op::Unbind("never_bound".into()), true));
     v.push(("load-garbage", Op::LoadText("{\"this is\": \"not a save\"}".into()), true));
     v.push(("load-not-json", Op::LoadText("][ nonsense".into()), true));
@@ -47,7 +51,8 @@ pub fn run(cfg: &Cfg) -> i32 {
         cfg.pick(2000, 40000),
     );
     let nprog = cfg.get_u64("programs", cfg.pick(40, 1500));
-    let gc = GenCfg::rich();
+    let mut gc = GenCfg::rich();
+    gc.externals = true;
     let opts = CmpOpts::default();
     let mut sampled = 0;
     for i in 0..nprog {
@@ -67,13 +72,16 @@ pub fn run(cfg: &Cfg) -> i32 {
                 cont_max: false,
                 set_vars: true,
                 stop_at_end: true,
+                jump_targets: None,
             };
             let host = HostCfg {
                 handler: h == 1,
                 fallbacks: true,
                 fuel: Some(30_000),
                 seed: Some(11),
-                bind: vec![("hostfn".to_string(), true)],
+                bind: std::iter::once(("hostfn".to_string(), true))
+                    .chain(c.info.externals.keys().map(|k| (k.clone(), true)))
+                    .collect(),
                 observe: c.info.globals.iter().enumerate().map(|(k, g)| (k, g.clone())).collect(),
             };
             let hist = match std::panic::catch_unwind(std::panic::AssertUnwindSafe(|| gen_history(&c, &host, &mut rng, &hc))) {
